@@ -33,7 +33,12 @@ static void oracle(const std::string &msg) {
   if (++nOracle <= 4) hp::oracle(msg);
 }
 
-static std::string show(const std::string &q) { return q.empty() ? "\"\"" : q; }
+static std::string show(const std::string &q) {
+  if (q.empty()) return "\"\"";
+  for (size_t i = 0; i < q.size(); ++i)
+    if (q[i] < 0x21 || q[i] > 0x7e) return "x" + hp::hex(q);   // non-printable bytes: hex
+  return q;
+}
 
 // value of a result, with the index checked against the values vector first
 static bool valueOf(const trie_t::result_t &r, int &v, const std::string &q, const char *what) {
